@@ -108,12 +108,15 @@ UniModes == {"ascii", "format", "silent"}
 \* the elements whose UUID is written to the file (cull_uuid keeps only top-level ones)
 Keep(enc, g) == IF enc.kind = "kv2" /\ enc.cull THEN Roots(g, enc.flat) ELSE SeqSet(Listing(g))
 
-AttrsOf(g) == UNION {SeqSet(g.el[u].attrs) : u \in Reach(g)}
-HasTime(g) == \E a \in AttrsOf(g) : a.t = TIME
+\* positions of all attributes of reachable elements (attribute records themselves are never
+\* collected into one set: their values are of different kinds)
+AllPos(g) == UNION {{<<u, j>> : j \in 1..Len(g.el[u].attrs)} : u \in Reach(g)}
+At(g, p) == g.el[p[1]].attrs[p[2]]
+HasTime(g) == \E p \in AllPos(g) : At(g, p).t = TIME
 \* every piece of text the writers encode
 Strings(g) == {g.el[u].type : u \in Reach(g)} \cup {g.el[u].name : u \in Reach(g)}
-              \cup {a.n : a \in AttrsOf(g)}
-              \cup UNION {SeqSet(a.v) : a \in {b \in AttrsOf(g) : b.t = TSTRING}}
+              \cup {At(g, p).n : p \in AllPos(g)}
+              \cup UNION {SeqSet(At(g, p).v) : p \in {q \in AllPos(g) : At(g, q).t = TSTRING}}
 CanExpress(enc, uni, g, na) ==
     /\ (enc.kind = "bin" /\ enc.ver < 3) => ~HasTime(g)      \* TIME exists from binary v3
     /\ uni = "ascii" => Strings(g) \cap na = {}              \* ascii mode refuses other text
@@ -122,9 +125,9 @@ CanExpress(enc, uni, g, na) ==
 \* string table: v2+ holds element types and attribute names (and, a quirk kept from
 \* Valve's writer, the word "name"); v4+ also element names and scalar string values
 UsedStrings(g, ver) ==
-    {"name"} \cup {g.el[u].type : u \in Reach(g)} \cup {a.n : a \in AttrsOf(g)}
+    {"name"} \cup {g.el[u].type : u \in Reach(g)} \cup {At(g, p).n : p \in AllPos(g)}
     \cup (IF ver >= 4 THEN {g.el[u].name : u \in Reach(g)}
-                           \cup {a.v[1] : a \in {b \in AttrsOf(g) : b.t = TSTRING /\ ~b.arr}}
+                           \cup {At(g, p).v[1] : p \in {q \in AllPos(g) : At(g, q).t = TSTRING /\ ~At(g, q).arr}}
           ELSE {})
 RefWire(r, L) == CASE r.k = "null" -> [i |-> 0 - 1, u |-> ""]
                    [] r.k = "stub" -> [i |-> 0 - 2, u |-> r.u]     \* -2 is followed by the UUID text
@@ -208,6 +211,18 @@ BAppend(g, e, j, x) == [g EXCEPT !.el[e].attrs[j].v = Append(@, x)]
 BAddScalar(g, e, n, t, x) == NewAttr(g, e, [n |-> n, t |-> t, arr |-> FALSE, v |-> <<x>>])
 BSetName(g, e, s) == [g EXCEPT !.el[e].name = s]
 BSetType(g, e, s) == [g EXCEPT !.el[e].type = s]
+\* text of class c ("q" needs escapes, "U" is non-ASCII) in the places text can stand
+\* besides attribute values; "ncase" spells the name attribute "Name"
+BPlace(g, place, c, nn) ==
+    LET an == IF c = "q" THEN "aq" ELSE "aU"
+        en == IF c = "q" THEN "nq" ELSE "nU"
+        tn == IF c = "q" THEN "tq" ELSE "tU"
+    IN CASE place = "aname" -> BAddScalar(g, "u1", an, INT, "i1")
+         [] place = "ename" -> BSetName(g, "u1", en)
+         [] place = "etype" -> BSetType(g, "u1", tn)
+         [] place = "ncase" -> BAddScalar(BSetName(g, "u1", "nC"), "u1", nn, INT, "i1")
+         [] place = "cname" -> BAddScalarRef(BSetName(g, "u2", en), "u1", nn, RefE("u2"))
+         [] OTHER -> BAddScalarRef(BSetType(g, "u2", tn), "u1", nn, RefE("u2"))
 RECURSIVE AttrSize(_, _)
 AttrSize(attrs, i) == IF i > Len(attrs) THEN 0
                       ELSE 1 + (IF attrs[i].arr THEN Len(attrs[i].v) ELSE 0) + AttrSize(attrs, i + 1)
